@@ -45,7 +45,7 @@ impl BuiltinWorker {
                     o.render = Some(src);
                     o
                 }
-                Err(e) => Outcome::fail("documented-usage-rejected", format!("{e}\n{src}")),
+                Err(e) => Outcome::fail(format!("documented-usage-rejected:{:016x}", fnv(src.as_bytes())), format!("{e}\n{src}")),
             };
         }
         let empty: Vec<u8> = Vec::new();
